@@ -150,6 +150,22 @@ func allEntryPoints(sql string) []epResult {
 	low("Parser.ParseWithPositions", func(p *parser.Parser, toks []models.TokenWithSpan) (*ast.AST, error) {
 		return p.ParseFromModelTokensWithPositions(toks)
 	})
+	// one parser instance used through several of its methods in turn (no Reset in between): the context-aware
+	// call first, its context cancelled after it returned, then the plain and the position-tracking calls
+	low("Parser(reused).Parse", func(p *parser.Parser, toks []models.TokenWithSpan) (*ast.AST, error) {
+		ctx, cancel := context.WithCancel(context.Background())
+		_, _ = p.ParseContextFromModelTokens(ctx, toks)
+		cancel()
+		_, _ = p.ParseFromModelTokensWithPositions(toks)
+		return p.ParseFromModelTokens(toks)
+	})
+	low("Parser(reused).ParseWithPositions", func(p *parser.Parser, toks []models.TokenWithSpan) (*ast.AST, error) {
+		_, _ = p.ParseFromModelTokens(toks)
+		ctx, cancel := context.WithCancel(context.Background())
+		_, _ = p.ParseContextFromModelTokens(ctx, toks)
+		cancel()
+		return p.ParseFromModelTokensWithPositions(toks)
+	})
 	return res
 }
 
